@@ -10,7 +10,9 @@ from ..runner import run_tasks, unjsonable
 CFG = {"oracles": ("C01", "C04"), "violations": ("C01",), "profile": "mixed", "states": False}
 LEVEL_NOTE = ("theorems are about the resolved-layer core of Model/Put.lean run on Model/FS.lean (kernel semantics of "
               "rename/mkdir/O_EXCL/unlink, symlink resolution, virtual mount table: modelled, validated by the "
-              "correspondence); fault-free, single process; shutil/os routines as encoded in Model/PyLib.lean")
+              "correspondence); fault-free, single process; shutil/os routines as encoded in Model/PyLib.lean. C01Seq: whole runs with ANY "
+              "number of everyday arguments: each gone from its place and whole under its own files/<name> as it was initially, its "
+              "info present, names distinct, every other path unchanged (directory mtimes aside); inert arguments at any position change nothing")
 RULE = ("seeded random worlds: 1-4 arguments of kinds file/empty/tree/symlink(file,dir,dangling,absolute) x 11 spellings "
         "(relative, absolute, './', trailing slashes, 'd/../x', '//abs', through a symlinked parent, 'link/../x'), dot "
         "entries, missing paths, mount points (some read-only), read-only and setgid directories, named pipes; home directories whose names hold regular-expression metacharacters, or are "
